@@ -96,7 +96,19 @@ one-level summaries computed to a fixpoint over all units) plus Engine I (sa/int
   R13.29 phase globals         a static pointer global that the code resets with a literal NULL is dereferenced only where a non-null state is established on every way the
                                function is reached (structured must-analysis + greatest fixpoint over the unit's call graph), judged per phase: before the first store, after a
                                reset by a callee (sa/lib_c13glob.py).
-  R13.30 position travels      `if (!X->F) error_tok(X->P, ..)`: pairs (F, P) derived; a function that stores F into an object field by field stores P too.
+  R13.30 position travels      `if (!X->F) error_tok(X->P, ..)`: pairs (F, P) derived; a function that stores F into an object field by field stores P too -- decided per OBJECT
+                               (a store to the root variable of the base starts another object) and on every path: an object that has received F has received P when the function
+                               lets go of it (variable rebound, return, end); a replacement derived from an object whose F the function has read carries F over if a sibling does.
+  R13.34 decide, then judge    a function with a boolean / pointer result and a "not mine" exit (`return false` / NULL: the caller reads the same input another way) issues a
+                               diagnostic (error_tok, error_at, error, warn_tok) only where no "not mine" exit is still ahead (sa/lib_c13try.py).
+  R13.36 alignment from input  a constant expression stored into an `align` field is tested to be a power of two first (`v & (v - 1)`, directly or in a helper): the field reaches
+                               `.align` unchanged and the assembler rejects 3, 5, 6 .. (sa/lib_c13lim.py).
+  R13.37 include nesting       the function that splices a tokenized file into the input refuses a nesting beyond a limit (diagnostic under a comparison of a counted-up integer
+                               with a constant): a self-including file is otherwise never answered (sa/lib_c13lim.py).
+  R13.38 paren after pointers  a declarator function that reads `(` as a nested declarator (self-call behind the parenthesis) first excludes the parameter-list reading of its other
+                               path by the next token: a type name or `)` begins a parameter list (C11 6.7.6.3p11) (sa/lib_c13lim.py).
+  R13.35 directive located     a diagnostic about a preprocessing directive -- also one raised at the END of its operands, at the end marker of the copied line -- names the
+                               directive's own line and file (obligations of C18 R18.9, re-issued).
 
   R13.31 flush examined       a function that writes a file through a stream opened for writing (fopen "w"/"a"/"+", stdout as "-", a function returning such a stream) examines the
                                RESULT OF FLUSHING it (fflush/fclose in a condition that ends the process or the function, ferror after an fflush, or a helper that does so for its
@@ -391,6 +403,9 @@ def run(P, rep, tier):
     r1329(P, W, rep)
     r1331(P, rep)
     r1332(P, rep)
+    r1334(P, rep)
+    r1335(P, rep)
+    r1336(P, rep)
     for rule, fam in (('R13.13', LD.r1313_function), ('R13.14', LD.r1314_declspec), ('R13.15', LD.r1315_typing), ('R13.16', LD.r1316_constexpr)):
         try:
             fam(P, rep, rule)
@@ -1504,6 +1519,42 @@ def r1324(P, rep):
            '(and a line that need not exist in that file), so the input is not answered with a located diagnostic: ')
     n = reissue(rep, 'R13.24', sub, why, keep=lambda o: o['key'].split(':', 1)[0] == 'R18.5')
     rep.extra['R13.24'] = {'obligations_of_C18_reissued': n}
+
+
+def r1334(P, rep):
+    """decide, then judge: sa/lib_c13try.py"""
+    from .. import lib_c13try
+    lib_c13try.run(P, rep)
+
+
+def r1335(P, rep):
+    """a located diagnostic names the construct it is about: a diagnostic raised while a directive is processed -- in particular at the end marker that terminates the
+    copied operands of the directive -- carries the line and file of the directive, not of whatever follows it (the next line, the including file, line N+1 of an N-line
+    file: a position that need not exist in the input).  The obligations are C18's (R18.9)."""
+    rep.rule('R13.35', 'a diagnostic about a preprocessing directive (raised at one of its tokens, at the end marker of its copied operands, or later at a token the directive '
+                       'stored for that purpose) is located on the directive: never, on every path, at a token behind the end of the directive\'s line (obligations of C18 R18.9, '
+                       're-issued)', floor=15)
+    from ..report import Report, reissue
+    from ..interp import Unsupported
+    sub = Report('C18')
+    try:
+        from .. import lib_c18d
+        lib_c18d.r189(P, sub)
+    except (AnalysisBroken, Unsupported, ImportError, AttributeError) as e:
+        rep.undecided('R13.35', 'preprocess.c:directive-diagnostics:engine', 'the directive loop cannot be interpreted: %s' % e)
+        return
+    why = ('error_tok() prints tok->file->name and tok->line_no of the token it is given: this diagnostic names a line (after the last directive of a file: a file, or a line '
+           'that does not exist) the construct is not on, so the input is not answered with a LOCATED diagnostic: ')
+    n = reissue(rep, 'R13.35', sub, why, keep=lambda o: o['key'].split(':', 1)[0] == 'R18.9')
+    rep.extra['R13.35'] = {'obligations_of_C18_reissued': n}
+
+
+def r1336(P, rep):
+    """limits on values of the input: alignment is a power of two (R13.36), #include nesting is bounded (R13.37): sa/lib_c13lim.py"""
+    from .. import lib_c13lim
+    lib_c13lim.run_align(P, rep)
+    lib_c13lim.run_depth(P, rep)
+    lib_c13lim.run_paren(P, rep)
 
 
 def r1327(P, rep):
